@@ -756,7 +756,7 @@ def check_scan(case, ctx):
 
 def enum_deep_caller(tier):
     for j, n in enumerate((250, 254) if tier == "quick" else (250, 254, 255, 252)):
-        yield {"seed": bytes([0x40 + j]) * 16, "levels": n, "margin": 160, "side": "prv" if j % 2 == 0 else "pub"}
+        yield {"seed": bytes([0x40 + j]) * 16, "levels": n, "margin": 180, "side": "prv" if j % 2 == 0 else "pub"}
 
 
 def check_deep_caller(case, ctx):
@@ -797,7 +797,7 @@ def clauses():
     return [
         Clause("deep-caller", check_deep_caller,
                "one derive_path request of 250..255 levels (private hardened, public normal) from a caller whose stack is "
-               "within 160 frames of the recursion limit; equals single ckd steps and the reference",
+               "within 180 frames of the recursion limit; equals single ckd steps and the reference",
                enum=enum_deep_caller, exhaustive=True, enum_desc="2 (4) path lengths", nontrivial=lambda c: True,
                shards={"quick": 2, "thorough": 4}),
         Clause("history", check_history,
